@@ -322,7 +322,18 @@ def check_ownership(res, rule: str, writes: List[Write], state: str, owners: Dic
             why = f"operation {w.op!r} is not among the owner's operations {sorted(owners[q])}"
         else:
             name = q.split(".")[-1]
-            if cg is not None and name.startswith("_") and not name.startswith("__") and q in cg.funcs:
+
+            def private(qn):
+                """A private helper: a private name, or a function of a private module of the package (a module
+                whose own name starts with an underscore is not part of the public interface)."""
+                nm = qn.split(".")[-1]
+                if nm.startswith("_") and not nm.startswith("__"):
+                    return True
+                f_ = cg.funcs.get(qn) if cg is not None else None
+                mod_ = getattr(getattr(f_, "module", None), "name", "") or ""
+                return f_ is not None and f_.cls is None and mod_.split(".")[-1].startswith("_") and \
+                    not mod_.split(".")[-1].startswith("__")
+            if cg is not None and private(q) and q in cg.funcs:
                 # climb through private helpers only: an owner above is a legitimate entry point, a public
                 # non-owner above is a foreign writer
                 callers, pub, stack = set(), set(), list(cg.callers.get(q, ()))
@@ -333,7 +344,7 @@ def check_ownership(res, rule: str, writes: List[Write], state: str, owners: Dic
                     callers.add(c)
                     if c in owners:
                         continue
-                    if _is_public(c.split(".")[-1]):
+                    if not private(c):
                         pub.add(c)
                     else:
                         stack.extend(cg.callers.get(c, ()))
